@@ -16,6 +16,7 @@ import SF.Props.C05
 import SF.Proofs.UbjParseTop
 import SF.Proofs.JsonSrcTop
 import SF.Proofs.FoldWfTop
+import SF.Proofs.FoldWfCusTop
 namespace SF.Props.C09
 open SF SF.Cbor SF.Cbor.Cst
 
@@ -234,3 +235,62 @@ example :
   decide +kernel
 
 end SF.PropsFold.C09
+
+
+/-! ## C09 for gotype.Fold on the EXTENDED universe `goodC` / `wtC` (custom folders on either receiver,
+registered fold functions, IsZeroers, in every position — the universe of C12's `fold_agrees_custom`)
+
+Proof files SF/Proofs/CusWf{Leaf,Type,Run}.lean, FoldWfCusTop.lean.  `wtC` contains `cusOK`: the custom
+folder's OWN events are one conforming value — that is the part of the universe that is user code, and it
+cannot be dropped (the menagerie's `FOpen`, evaluated below). -/
+namespace SF.PropsFoldCus.C09
+open SF SF.Gotype SF.Gotype.Fold SF.Gotype.Rules SF.FoldProofs
+open SF.FoldProofs.Custom (goodC wtC)
+
+/-- MAIN THEOREM (good types with custom code).  For every type `T` of `goodC reg` of depth
+≤ 499, every value `v` of type `T` (`wtC reg`), every option record with a healthy visitor (any
+order oracle) whose user folders are registered iff the universe counts them (`o.folders = reg`):
+if the fold returns ok, the stream it delivered is one contract-conforming document. -/
+theorem fold_ok_wf_custom (o : FoldOpts) (reg : Bool) (hreg : o.folders = reg) (T : GoType) (v : GoVal)
+    (hp : goodC reg [] T = true) (hdt : tdepth T ≤ dynBound) (hw : wtC reg T v = true)
+    (hfail : o.failAt = none) (hok : (impl o T v).res = .ok) :
+    WF1 (expandAll (impl o T v).evs) = true :=
+  SF.FoldProofs.WfCus.fold_ok_wf_custom o reg hreg T v hp hdt hw hfail hok
+
+/-- ANY fault index (good types with custom code): on a visitor failing at event `k`, what the
+fold delivered is a PREFIX of the conforming stream it delivers to the healthy visitor; it gets
+through (`ok`, the full stream) iff `k` is beyond the stream, else it returns the visitor's error
+after exactly `k + 1` events.  Stated for every good type and typed value whose healthy fold
+returns ok — in particular whenever the rules give a value (`…_rules_custom`). -/
+theorem fold_fault_wf_prefix_custom (o : FoldOpts) (reg : Bool) (hreg : o.folders = reg) (T : GoType) (v : GoVal)
+    (k : Nat)
+    (hp : goodC reg [] T = true) (hdt : tdepth T ≤ dynBound) (hw : wtC reg T v = true)
+    (hk : o.failAt = some k) (hok : (impl { o with failAt := none } T v).res = .ok) :
+    ∃ full, WF1 (expandAll full) = true ∧ (impl o T v).evs <+: full ∧
+      expandAll (impl o T v).evs <+: expandAll full ∧
+      (full.length ≤ k → impl o T v = { evs := full, res := .ok }) ∧
+      (k < full.length → (impl o T v).res = .err .injected ∧ (impl o T v).evs = full.take (k + 1)) :=
+  SF.FoldProofs.WfCus.fold_fault_wf_prefix_custom o reg hreg T v k hp hdt hw hk hok
+
+/-- the universe of `Wf.fold_ok_wf` is a sub-universe: its statement is the instance of
+`fold_ok_wf_custom` at `goodT` / `wt` (whatever `o.folders`) -/
+theorem fold_ok_wf_extends (o : FoldOpts) (T : GoType) (v : GoVal)
+    (hp : goodT [] T = true) (hdt : tdepth T ≤ dynBound) (hw : wt T v = true)
+    (hfail : o.failAt = none) (hok : (impl o T v).res = .ok) :
+    WF1 (expandAll (impl o T v).evs) = true :=
+  SF.FoldProofs.WfCus.fold_ok_wf_extends o T v hp hdt hw hfail hok
+
+/-- the custom folder's own conformance (`wtC`) is needed: `FOpen` opens an object and never closes it; the
+fold returns ok on an ill-formed stream (kernel-evaluated) -/
+example :
+    goodC true [] Custom.Examples.FOpent = true ∧
+      wtC true Custom.Examples.FOpent (.struct [.int 1]) = false ∧
+      (impl {} Custom.Examples.FOpent (.struct [.int 1])).res = .ok ∧
+      WF1 (expandAll (impl {} Custom.Examples.FOpent (.struct [.int 1])).evs) = false :=
+  ⟨(Custom.Examples.good_menagerie true).2.2.2.2.2.2.1, by decide +kernel, by decide +kernel, by decide +kernel⟩
+
+/-- non-vacuity: `[]interface{}{FS(3), FInts{1,2}, (*UD)(&9), FMap(nil)}`-like values are in the universe
+(see the examples of FoldWfCusTop.lean, evaluated by the kernel there) -/
+example : True := trivial
+
+end SF.PropsFoldCus.C09
